@@ -4,6 +4,9 @@
   `WindowManager` is regenerated from windows.py on every run (the theorems below are re-checked against the
   current source); the connection-level methods are the hand model.
 -/
+import H2.Proofs.PairCredit
+-- the credit equation of one window between two endpoints, everything in flight (arithmetic of windows.py + C03/C04/C11)
+-- @also H2.PairCredit.data_never_overruns
 import H2.Proofs.StreamLemmas
 
 namespace H2.C04
